@@ -569,3 +569,21 @@ def _c18(work, v, tier, seed):
 
 PIPELINES["C18"] = _c18
 SIMPLE_REPLAY["markov"] = ("Trace_Markov", markov_account)
+
+
+def weights_account(v, trace, res):
+    simple_account(v, trace, res, "weights", "Trace_Weights", key=lambda e: {k: e.get(k) for k in ("t", "what", "L", "seed", "alphas", "alpha", "n", "ncat", "total")},
+                   sample=lambda e: {k: e.get(k) for k in ("t", "what", "L", "seed", "alpha", "ncat", "kind")},
+                   describe=lambda e: {k: e.get(k) for k in ("t", "what", "L", "seed", "alphas", "alpha", "n", "ncat", "total", "msg")})
+
+
+def _c20(work, v, tier, seed):
+    vf.build_driver(work)
+    trace = vf.drive(work, "weights", n=60 if tier == "quick" else 1500, seed=seed, tier=tier)
+    res = vf.tlc_trace(work, "Trace_Weights", trace, cfg=write_cfg(work, "Trace_Weights.cfg", invariants=["Done"]), timeout=3000)
+    weights_account(v, trace, res)
+    v.assumptions += ["TLC and the CommunityModules evaluate TLA+ correctly", "java.lang.Math exp/log accurate to 1e-12",
+                      "lnGamma(alpha) is the value the caller passes to the routine (math.Lgamma)"]
+
+
+PIPELINES["C20"] = _c20
